@@ -21,6 +21,7 @@ def primOK : Prim → Val → Bool
   | .weekday, .int n => decide (1 ≤ n ∧ n ≤ 7)
   | .month, .int n => decide (1 ≤ n ∧ n ≤ 12)
   | .fixedOffset, .int n => decide (-86400 < n ∧ n < 86400)
+  | .varu32, .int n => decide (0 ≤ n ∧ n < 2 ^ 32)
   | _, _ => false
 
 mutual
